@@ -310,16 +310,16 @@ for _n, _dims, _out, _call in (
     ("to_Vector3D", (2, 3, 4), 3, lambda v, w, s: v.to_Vector3D()),
     ("to_Vector4D", (2, 3, 4), 4, lambda v, w, s: v.to_Vector4D()),
     ("to_Vector3D(theta=)", (2,), 3, lambda v, w, s: v.to_Vector3D(theta=0.75)),
-    ("to_Vector4D(t=)", (2, 3), 4, lambda v, w, s: v.to_Vector4D(t=7.0)),
-    ("to_Vector4D(eta=,mass=)", (2,), 4, lambda v, w, s: v.to_Vector4D(eta=-0.5, mass=2.0)),
+    ("to_Vector4D(t=)", (2, 3), 4, lambda v, w, s: v.to_Vector4D(t=7.25)),
+    ("to_Vector4D(eta=,mass=)", (2,), 4, lambda v, w, s: v.to_Vector4D(eta=-0.5, mass=2.5)),
     ("to_xy", (2, 3, 4), 2, lambda v, w, s: v.to_xy()),
     ("to_rhophi", (2, 3, 4), 2, lambda v, w, s: v.to_rhophi()),
     ("to_xyz", (2, 3, 4), 3, lambda v, w, s: v.to_xyz()),
     ("to_rhophieta", (2, 3, 4), 3, lambda v, w, s: v.to_rhophieta()),
     ("to_xyzt", (2, 3, 4), 4, lambda v, w, s: v.to_xyzt()),
-    ("to_xyzt(t=)", (2, 3), 4, lambda v, w, s: v.to_xyzt(t=7.0)),
+    ("to_xyzt(t=)", (2, 3), 4, lambda v, w, s: v.to_xyzt(t=7.25)),
     ("to_rhophietatau", (2, 3, 4), 4, lambda v, w, s: v.to_rhophietatau()),
-    ("to_rhophietatau(tau=)", (2, 3), 4, lambda v, w, s: v.to_rhophietatau(tau=2.0)),
+    ("to_rhophietatau(tau=)", (2, 3), 4, lambda v, w, s: v.to_rhophietatau(tau=2.5)),
     ("to_ptphietamass", (2, 3, 4), 4, lambda v, w, s: v.to_ptphietamass()),
 ):
     _extra(Op(_n, "method", _dims, None, (), "vec", None, _true, _call, out_dim=(lambda da, db, _o=_out: _o), tags=("conversion",)))
